@@ -227,7 +227,7 @@ def r3_5(cx):
 def r3_6(cx):
     """what the pipe stands on: the sliding deque of slices (R15.1-R15.6), the tombstoned map of placeholders (R16.1-R16.4), an allocator that serves every size (R17.7)"""
     from . import c15, c16, c17, c05
-    compose(cx, [('R15.1', c15.r15_1), ('R15.2', c15.r15_2), ('R15.3', c15.r15_3), ('R15.4', c15.r15_4), ('R15.5', c15.r15_5), ('R15.6', c15.r15_6), ('R15.7', c15.r15_7),
+    compose(cx, [('R15.1', c15.r15_1), ('R15.2', c15.r15_2), ('R15.3', c15.r15_3), ('R15.4', c15.r15_4), ('R15.5', c15.r15_5), ('R15.6', c15.r15_6), ('R15.7', c15.r15_7), ('R15.8', c15.r15_8),
                  ('R16.1', c16.r16_1), ('R16.2', c16.r16_2), ('R16.3', c16.r16_3), ('R16.4', c16.r16_4), ('R17.7', c17.r17_7), ('R5.4', c05.r5_4)])
 
 
